@@ -4,11 +4,27 @@ NOTES = ("All checks: ./check <id> --tier quick|thorough; setup builds the Coq d
          "and compiles the driver. known_findings.json lists recorded defects (kind known) and repaired ones (kind fixed).")
 NOT_APPLICABLE = {}
 # built, but their fix stage is in progress (model already in the repaired state, patches not yet committed to /repo)
-PENDING = {"C10", "C15", "C16"}
+PENDING = {"C10", "C15", "C16", "C20"}
 COMMON_NOTE = ("Trusted: Coq 8.16.1 kernel (+vm_compute), extraction (ExtrOcamlBasic, ExtrOcamlString), OCaml driver, the Python harness, "
                "CPython/torch as referents. Theorems are about the hand-written model; the model<->code tie is this run's differential "
                "correspondence, bounded by its generators (distribution in the evidence). ")
 CHECKS = {
+    "C20": {
+        "text": ("Proof (Coq), with fn, its result type and is_leaf universally quantified (fn is a free symbol, so results hold for every function): "
+                 "for EVERY insertion-ordered tree without duplicate keys, every list of other operands (permuted / missing / extra keys, nested "
+                 "empties, non-tensor leaves), every out and EVERY point of the option lattice {inplace, out, default, filter_empty, call_on_nested, "
+                 "named, nested_keys, batch_size / names / device override, checked, is_leaf, propagate_lock}, the model of `_apply_nest` returns "
+                 "what an independently written recursive reference returns (fn applied to the entry and to the other operands' entries matched by "
+                 "key, None results dropped, empties filtered as filter_empty says); not in place, every caller object found in the result belongs "
+                 "to out and out is what is returned; in place, same objects, same keys in the same order, same leaf storages at every depth; "
+                 "documented result metadata; the thread-pool form (`_multithread_apply_flat` + `_multithread_rebuild`) gives the same answer for "
+                 "EVERY permutation of task completion and equals the single-threaded form. Tie: the full lattice (46,656 points) x sampled "
+                 "operand scenes x 6 container kinds x lock state vs the extracted model, an independent Python reference and mt-vs-st through a "
+                 "permuting executor and the real pool; fn = injective integer hash-combine (or None for chosen keys)."),
+        "note": COMMON_NOTE + "Exception classes and non-regular containers (lazy through the stacked view, _SubTensorDict, tensorclass, TensorDictParams "
+                "modulo identity/lock state) are covered by the differential run only. Known findings in findings.d/C20.json.",
+        "technique": "Coq proof (mutual induction over insertion-ordered trees, free function symbol, induction over Permutation) + full-lattice differential run",
+    },
     "C01": {
         "text": ("Proof (Coq): for plain TensorDict trees (tensor leaves, nested tensordicts, NonTensorData entries; ANY depth and rank, size-0/1 dims, "
                  "names, two devices) a Gallina transcription `step` of every public mutator in the property's list (set / set_ / setdefault / update / "
